@@ -984,3 +984,241 @@ def gen_requery(wide=False):
                 if c["phases"][0] not in seen:
                     seen.append(c["phases"][0])
                     yield dict(q=1, maps=list(c["maps"]), phases=[c["phases"][0]], scribble=1)
+
+
+# ---------------------------------------------------------------------------------------------
+# large magnitudes: the small families with every time multiplied by a factor and shifted by an offset, and long
+# regular parts; positions are queried in the neighbourhood of every time point (case key "near")
+
+INT32_MAX = 2 ** 31 - 1
+MAG_FACTORS = (1, 480, 10080, 302400)
+MAG_OFFSETS = (0, 2 ** 16 + 1, 2 ** 24 + 1, 2 ** 31 + 1)
+NEAR = 3
+
+
+class Ref(object):
+    """The reference of a state with the element tables gathered once (same readings as ref_ts / ref_ks / ref_clef /
+    ref_measures / ref_measure_at, which sort the elements on every call: too slow for parts of thousands of elements)."""
+
+    def __init__(self, st):
+        import bisect
+
+        self._bis = bisect.bisect_right
+        self.st = st
+
+        def table(elems):
+            elems = sorted(elems, key=lambda e: e[0])  # stable, as in in_force
+            return [e[0] for e in elems], [e[1] for e in elems]
+
+        self._ts = table([(r[0], (r[1], r[2], r[3])) for r in st.ts_rows()])
+        self._ks = table([(o[1], (o[2], MODE_INT[o[3]])) for o in st.of("ks")])
+        self.nst = st.nstaves()
+        self._clef = []
+        for s in range(1, self.nst + 1):
+            self._clef.append(table([(o[1], (s, o[3], o[4], o[5] if o[5] is not None else 0))
+                                     for o in st.of("clef") if o[2] == s]))
+        self.meas = ref_measures(st) if st.of("meas") else []
+        self._mstarts = [m[3] for m in self.meas]
+        # bisection needs the measures in order without overlap (the generators only make contiguous ones)
+        self._tiled = all(a[3] < a[1] <= b[3] for a, b in zip(self.meas, self.meas[1:])) and \
+            all(m[3] < m[1] for m in self.meas)
+
+    def _in_force(self, tab, t, default):
+        starts, vals = tab
+        if not starts:
+            return default
+        i = self._bis(starts, t)
+        return vals[max(i - 1, 0)]
+
+    def ts(self, t):
+        return self._in_force(self._ts, t, (4, 4, 4))
+
+    def ks(self, t):
+        return self._in_force(self._ks, t, (0, 1))
+
+    def clef(self, t):
+        return tuple(self._in_force(tab, t, (s + 1, "none", 0, 0)) for s, tab in enumerate(self._clef))
+
+    def measure_at(self, t):
+        if not self._tiled:
+            return ref_measure_at(self.meas, t)
+        i = self._bis(self._mstarts, t) - 1
+        if i >= 0 and self.meas[i][3] <= t < self.meas[i][1]:
+            return self.meas[i]
+        return None
+
+
+def near_positions(pts, k):
+    """The positions queried when a timeline is too long to ask every integer: every position within k divisions of a
+    time point of the part and the midpoint between two neighbouring time points, inside first..last time point."""
+    lo, hi = pts[0], pts[-1]
+    out = set()
+    for p in pts:
+        out.update(range(max(lo, p - k), min(hi, p + k) + 1))
+    for a, b in zip(pts, pts[1:]):
+        out.add((a + b) // 2)
+    return sorted(out)
+
+
+def scale_ops(ops, f, off):
+    out = []
+    for o in ops:
+        o = list(o)
+        if o[0] in ("ts", "ks", "clef"):
+            o[1] = off + f * o[1]
+        elif o[0] in ("meas", "note", "rest"):
+            o[1] = off + f * o[1]
+            o[2] = off + f * o[2]
+        elif o[0] == "setq":
+            o[1] = off + f * o[1]
+            o[2] = f * o[2]
+        else:
+            raise ValueError(o)
+        out.append(o)
+    return out
+
+
+def _knots(ops):
+    """Positions where an element other than a note / rest starts or a measure ends."""
+    ks = set()
+    for o in ops:
+        if o[0] in ("ts", "ks", "clef", "setq"):
+            ks.add(o[1])
+        elif o[0] == "meas":
+            ks.add(o[1])
+            ks.add(o[2])
+    return sorted(ks)
+
+
+def magnitude_case(base, f, off, near=NEAR):
+    """The one-phase case `base` with every time t replaced by off + f * t and the quarter duration multiplied by f
+    (bar lengths, pickups and signatures keep their meaning). Where the base has notes, a note of ONE division is added
+    that ends at every signature / clef / measure boundary (so it starts one division before it, for the note-array
+    columns); positions beyond int32 cannot be stored in a note array (onset_div is int32): there the notes and rests are
+    left out and the timeline is framed by the other elements. -> case or None (nothing left / outside the generator
+    preconditions of the measure clauses)."""
+    ops = scale_ops(base["phases"][0], f, off)
+    tmax = max(max(o[1], o[2]) if o[0] in ("meas", "note", "rest") else o[1] for o in ops)
+    has_notes = any(o[0] in ("note", "rest") for o in ops)
+    if tmax > INT32_MAX:
+        ops = [o for o in ops if o[0] not in ("note", "rest")]
+    elif has_notes:
+        t0 = min(o[1] for o in ops)
+        fine = [["note", k - 1, k, 1, "f%d" % i] for i, k in enumerate(_knots(ops)) if k - 1 >= t0]
+        # first or last in the insertion order
+        ops = (ops + fine) if (f + off) % 2 else (fine[::-1] + ops)
+    if not any(o[0] != "setq" for o in ops):
+        return None
+    case = dict(q=base["q"] * f, maps=list(base["maps"]), phases=[ops], near=near, mag=[f, off])
+    if "beyond" in base:
+        case["beyond"] = base["beyond"]
+    st = _mk_state(case["q"], ops)
+    if len(st.point_times()) < 1:
+        return None
+    if "meas" in case["maps"]:
+        if not st.of("meas") or not measures_in_scope(st):
+            return None
+    return case
+
+
+def magnitude_bases(wide=False):
+    ts_core = [None, ("at0", 4, 4), ("at0", 3, 4), ("at0", 6, 8), ("at0", 2, 2), ("gap", 3, 4)]
+    if not wide:
+        return itertools.chain(
+            gen_ts(2, (0,), TS_POOL[:3], 2, frame="both"),
+            gen_ks(2, (0,), 2, {1: "pool4", 2: "pool3"}),
+            gen_clef(2, 2, 1),
+            gen_meas(range(1, 5), (1, 2), ts_core, 3, ("from1",)),
+            gen_meas((4,), (1,), ts_core, 2, ("odd",), with_ks_clef=True),
+            gen_meas_beyond((3, 4), (1,), ts_core[:3], 2, (0, 2), leads=(0, 1), tail_kinds=("over", "ks")),
+            gen_meas_setq((4,), 2))
+    return itertools.chain(
+        gen_ts(3, (0, 1), TS_POOL[:3], 3, frame="both"), gen_ts(4, (0,), TS_POOL[:4], 2, frame="both"),
+        gen_ks(3, (0, 1), 2, {1: "all", 2: "pool4"}),
+        gen_clef(3, 2, 2), gen_clef(2, 3, 1),
+        gen_meas(range(1, 9), (1, 2, 3), ts_core + [("at0", 9, 8), ("at0", 5, 4)], 4, ("from1",)),
+        gen_meas((6,), (1, 2), ts_core, 3, ("from0",), with_ks_clef=True),
+        gen_meas_beyond(range(2, 5), (1,), ts_core, 3, (0, 1, 3), leads=(0, 1)),
+        gen_meas_setq(range(4, 8), 3))
+
+
+def gen_magnitude(wide=False, factors=MAG_FACTORS, offsets=MAG_OFFSETS):
+    """Every base part x every (factor, offset) except (1, 0), which the other spaces enumerate."""
+    for base in magnitude_bases(wide):
+        for f in factors:
+            for off in offsets:
+                if f == 1 and off == 0:
+                    continue
+                c = magnitude_case(base, f, off)
+                if c is not None:
+                    yield c
+
+
+LONG_TS = [(4, 4), (3, 4), (6, 8), (5, 4), (2, 2)]
+
+
+def long_part(n, q, variant):
+    """A regular part of n measures, quarter duration q: the time signature changes every 7 measures (4/4 3/4 6/8 5/4
+    2/2 in turn), the key signature every 5 (fifths -7..7 going up, modes major / minor / None in turn), the clef of staff
+    1 every 4 (CLEF_VALUES in turn), staff 2 gets its only clef at the fourth barline, staff 3 has none; every 11th
+    measure is one division short (irregular length); a note of one division starts at every barline and one division
+    before every barline (staves 1, 2, 3 in turn).
+    variant "plain": full first measure, elements inserted measure by measure;
+            "pickup": the first measure is one quarter long and has number 0, signatures and clefs inserted last;
+            "shifted": as plain, every time shifted by 2**16 + 1."""
+    off = 2 ** 16 + 1 if variant == "shifted" else 0
+    sig, meas, notes = [], [], []
+    t = off
+    for i in range(n):
+        b, bt = LONG_TS[(i // 7) % len(LONG_TS)]
+        ln = b * 4 * q // bt
+        if i == 0 and variant == "pickup":
+            ln = q
+        elif i % 11 == 10 and ln > 2:
+            ln -= 1
+        if i % 7 == 0:
+            sig.append(["ts", t, b, bt])
+        if i % 5 == 0:
+            j = i // 5
+            sig.append(["ks", t, j % 15 - 7, KS_MODES[j % 3]])
+        if i % 4 == 0:
+            v = CLEF_VALUES[(i // 4) % len(CLEF_VALUES)]
+            sig.append(["clef", t, 1, v[0], v[1], v[2]])
+        if i == 3:
+            sig.append(["clef", t, 2, "F", 4, -1])
+        meas.append(["meas", t, t + ln, i + (0 if variant == "pickup" else 1)])
+        notes.append(["note", t, t + 1, 1 + i % 3, "a%d" % i])
+        if ln > 1:
+            notes.append(["note", t + ln - 1, t + ln, 1 + (i + 1) % 3, "b%d" % i])
+        t += ln
+    if variant == "pickup":
+        ops = meas + notes + sig
+    else:
+        ops = sorted(sig + meas + notes, key=lambda o: o[1])
+    return ops
+
+
+def gen_long(ns, qs, variants=("plain", "pickup", "shifted"), near=1):
+    for n in ns:
+        for qi, q in enumerate(qs):
+            for v in (variants if variants else [("plain", "pickup", "shifted")[qi % 3]]):
+                ops = long_part(n, q, v)
+                if not measures_in_scope(_mk_state(q, ops)):
+                    raise AssertionError("long part outside the scope of the measure clauses: %r" % ((n, q, v),))
+                yield dict(q=q, maps=["ts", "ks", "clef", "meas"], phases=[ops], near=near, long=[n, q, v])
+
+
+def interleave(small, big, every):
+    """`small` with one case of `big` after every `every` cases (the rest of `big` at the end): the runner hands the cases
+    to the workers in consecutive chunks, so the expensive cases must not sit next to each other."""
+    big = iter(big)
+    n = 0
+    for c in small:
+        yield c
+        n += 1
+        if n % every == 0:
+            b = next(big, None)
+            if b is not None:
+                yield b
+    for b in big:
+        yield b
